@@ -314,6 +314,91 @@ pub fn interrupt_stream(run: &mut Run, rng: &mut Rng, n: usize) {
     run.notes.push("command-line interrupt stream: the real program in follow mode on an idle file is sent SIGINT; it must stop within ten seconds, report no error, and have printed a prefix of the complete lines".to_owned());
 }
 
+/// A *batch* query reading standard input (`--stdin`, started with `-c` or `--command-file`) is interrupted while it waits
+/// for more input: the lines written so far have been read (the pipe is observed to be empty), SIGINT is sent, then two
+/// further lines are written and the input is closed. C19's last clause: the program must end without reporting an error
+/// and what it prints is the output of the query over exactly the lines consumed before the interrupt — judged against the
+/// same program run over those lines alone with the input closed at once. (The waiting `read` itself does not return on the
+/// interrupt — the program notices the flag when the next line or the end of input arrives; that is why more input is
+/// supplied. Output that corresponds to *fewer* of the lines than were written means the interrupt overtook the reading
+/// under machine load: the scenario is repeated once with longer waits before it counts.)
+pub fn batch_interrupt_stream(run: &mut Run, rng: &mut Rng, n: usize) {
+    let bin = match bin_path() { Some(b) => b, None => { run.count("cli:binary-not-available"); return; } };
+    const DEF: &str = "CREATE TABLE t(line = 'k=([a-z]+) v=(-?[0-9]+)', line[1] => k TEXT, line[2] => v INT);";
+    const QUERIES: &[&str] = &[
+        "SELECT k, COUNT(*) AS n, SUM(v) AS s FROM t GROUP BY k",
+        "SELECT COUNT(*) AS n FROM t",
+        "SELECT MAX(v) AS m, MIN(v) AS l FROM t",
+        "SELECT k, ARRAY_AGG(v) AS vs FROM t GROUP BY k HAVING COUNT(*) >= 1",
+        "SELECT k, v FROM t",
+        "SELECT DISTINCT k FROM t",
+    ];
+    fn pipe_pending(fd: i32) -> i32 { let mut n: libc::c_int = 0; unsafe { libc::ioctl(fd, libc::FIONREAD, &mut n); } n }
+    for _ in 0..n {
+        let defs_path = tmp_file(DEF.as_bytes());
+        let k = 1 + rng.below(4);
+        let mut lines: Vec<String> = Vec::new();
+        for _ in 0..k { lines.push(format!("k={} v={}", rng.pick(&["a", "b", "c"]), rng.range(-9, 40))); }
+        let query = *rng.pick(QUERIES);
+        let by_file = rng.chance(1, 3);
+        let query_path = tmp_file(query.as_bytes());
+        let mut args = vec!["-d".to_owned(), defs_path.display().to_string(), "--stdin".to_owned()];
+        if by_file { args.push("--command-file".to_owned()); args.push(query_path.display().to_string()); } else { args.push("-c".to_owned()); args.push(query.to_owned()); }
+        // reference: the same program over prefixes of the lines, input closed at once
+        let reference = |j: usize| -> String {
+            let mut text = lines[..j].join("\n"); if j > 0 { text.push('\n'); }
+            run_cli(&bin, &args, Some(text.as_bytes()), Duration::from_secs(20)).stdout
+        };
+        let mut verdict: Option<(String, String)> = None; // (class, what)
+        for attempt in 0..2 {
+            let (settle, after) = if attempt == 0 { (300u64, 200u64) } else { (2000, 700) };
+            let mut cmd = Command::new(&bin);
+            cmd.args(&args).stdout(Stdio::piped()).stderr(Stdio::null()).stdin(Stdio::piped()).env("TZ", "UTC");
+            let mut child = match cmd.spawn() { Ok(c) => c, Err(_) => { run.count("cli:spawn-failed"); break; } };
+            let mut si = child.stdin.take().unwrap();
+            let mut so = child.stdout.take().unwrap();
+            let reader = std::thread::spawn(move || { let mut buf = Vec::new(); let _ = so.read_to_end(&mut buf); buf });
+            let mut text = lines.join("\n"); text.push('\n');
+            let _ = si.write_all(text.as_bytes()); let _ = si.flush();
+            use std::os::unix::io::AsRawFd;
+            let fd = si.as_raw_fd();
+            let t0 = Instant::now();
+            while pipe_pending(fd) > 0 && t0.elapsed() < Duration::from_secs(10) { std::thread::sleep(Duration::from_millis(5)); }
+            let drained = pipe_pending(fd) == 0;
+            std::thread::sleep(Duration::from_millis(settle));
+            unsafe { libc::kill(child.id() as i32, libc::SIGINT); }
+            std::thread::sleep(Duration::from_millis(after));
+            let _ = si.write_all(b"k=zz v=1000\nk=zy v=-1000\n"); let _ = si.flush();
+            drop(si);
+            let t1 = Instant::now();
+            let mut exited = None;
+            while t1.elapsed() < Duration::from_secs(10) {
+                match child.try_wait() { Ok(Some(st)) => { exited = Some(st); break; } _ => std::thread::sleep(Duration::from_millis(10)) }
+            }
+            if exited.is_none() { let _ = child.kill(); let _ = child.wait(); }
+            let out = String::from_utf8_lossy(&reader.join().unwrap_or_default()).to_string();
+            if !drained { run.count("cli:interrupt:batch-inconclusive-not-read"); verdict = None; continue; }
+            let want = reference(k);
+            if exited.is_none() {
+                verdict = Some(("cli-batch-interrupt-ignored".to_owned(), "ten seconds after the interrupt and the end of the input the program is still running".to_owned()));
+                break;
+            }
+            if out == want && !out.contains("Execution error") { verdict = None; run.count("cli:interrupt:batch-ok"); break; }
+            let fewer = (0..k).any(|j| reference(j) == out);
+            if fewer && attempt == 0 { run.count("cli:interrupt:batch-retry"); verdict = None; continue; }
+            verdict = Some(("cli-batch-interrupt-output".to_owned(), format!("printed {:?} (exit {:?}); the query over the {} lines consumed before the interrupt prints {:?}", out, exited.and_then(|s| s.code()), k, want)));
+            break;
+        }
+        run.oracle_checks += 1;
+        if let Some((class, what)) = verdict {
+            run.fail(format!("sqlgrep {} with standard input {:?}, SIGINT once these lines are read, then two more lines and end of input", args.join(" "), lines), &class, what);
+        }
+        let _ = std::fs::remove_file(defs_path);
+        let _ = std::fs::remove_file(query_path);
+    }
+    run.notes.push("command-line batch interrupt stream: the real program reading --stdin (-c / --command-file) is sent SIGINT after the written lines were read; it must end without an error and print exactly what the same program prints over those lines alone".to_owned());
+}
+
 /// `sqlgrep --follow [--head]` on a file that does not grow: with --head the complete lines present are delivered
 /// (the unterminated tail is not); without --head nothing is. The program never ends by itself, so it is given a
 /// fixed time and then killed; only the *content* printed within that time is judged (too little output within the time
